@@ -319,7 +319,7 @@ Qed.
 
 Lemma wstep_Cons wb o : Cons (sheets wb) -> Cons (sheets (wstep wb o)).
 Proof.
-  intros HC. unfold wstep. destruct o as [n|n|s t|s t|n v h|i|a b|n].
+  intros HC. unfold wstep. destruct o as [n|n|s t|s t|n v h|i|a b|n|nm sc rf].
   - destruct (new_sheet n wb) eqn:E; try assumption. eapply new_sheet_Cons; eassumption.
   - destruct (delete_sheet n wb) eqn:E; try assumption. eapply delete_sheet_Cons; eassumption.
   - destruct (move_sheet s t wb) eqn:E; try assumption. eapply move_sheet_Cons; eassumption.
@@ -328,6 +328,8 @@ Proof.
   - now apply Cons_set_active.
   - destruct (copy_sheet a b wb) eqn:E; try assumption. eapply copy_sheet_Cons; eassumption.
   - destruct (touch n wb) eqn:E; try assumption. eapply touch_Cons; eassumption.
+  - destruct (set_scoped_name nm sc rf wb) eqn:E; try assumption. unfold set_scoped_name in E.
+    destruct (sheet_index wb sc <? 0); [discriminate|]. destruct (nth_error _ _); [|discriminate]. inversion E; subst. exact HC.
 Qed.
 
 Lemma wrun_Cons ops : forall wb, Cons (sheets wb) -> Cons (sheets (wrun ops wb)).
